@@ -88,6 +88,8 @@ class Run:
                         for h in o.hyps:
                             print("   H:", str(h)[:300].replace("\n", " "))
                         print("   G:", str(o.goal)[:600])
+                    if os.environ.get("VERIF_DEBUG") == "3":
+                        explain(o, self.eng.rules)
                     print("   model:", (o.result["model"] or "")[:int(os.environ.get("VERIF_DEBUG_N", "1200"))].replace("\n", "\n      "))
         refuted = [o for o in obs if o.result["verdict"] == "sat"]
         undecided = [o for o in obs if o.result["verdict"] not in ("sat", "unsat")]
@@ -248,6 +250,36 @@ def run_child(repo_root, script, args=(), timeout=600):
         return {"error": repr(e)}
     finally:
         shutil.rmtree(d, ignore_errors=True)
+
+
+def explain(o, rules):
+    """debug aid: for each disjunct of the goal, which conjuncts are not entailed"""
+    g = o.goal
+    if z3.is_app(g) and g.decl().kind() == z3.Z3_OP_IMPLIES:
+        g = g.arg(1)
+    disj = g.children() if z3.is_app(g) and g.decl().kind() == z3.Z3_OP_OR else [g]
+    base = list(o.hyps) + rules.instances(list(o.hyps) + [o.goal])
+    for di, d in enumerate(disj):
+        conj = d.children() if z3.is_app(d) and d.decl().kind() == z3.Z3_OP_AND else [d]
+        flat = []
+
+        def fl(c):
+            if z3.is_app(c) and c.decl().kind() == z3.Z3_OP_AND:
+                for ch in c.children():
+                    fl(ch)
+            else:
+                flat.append(c)
+        for c in conj:
+            fl(c)
+        for ci, c in enumerate(flat):
+            s = z3.Solver()
+            s.set("timeout", 5000)
+            s.add(base)
+            s.add(z3.Not(c))
+            r = s.check()
+            if r != z3.unsat:
+                txt = " ".join(str(c).split())
+                print(f"      disjunct {di} conjunct {ci}/{len(flat)}: NOT entailed ({r}): {txt[:160]} ... {txt[-160:]}")
 
 
 def load_known():
